@@ -50,7 +50,15 @@ func (r *yieldRewriter) rewriteRanges(block *ast.BlockStmt) {
 			case *types.Array:
 				// typing workaround for abstract generic array iter
 				// type can't be infered from array, so we wrap it with slice
-				typeInfered := &ast.SliceExpr{X: n.X}
+				arr := n.X
+				if !r.isAddressable(arr) {
+					// array literal, call result ... can't be sliced,
+					// bind it to a variable first
+					tmp := X.Ident(r.gensym(cstArrayVar))
+					c.InsertBefore(X.Define(tmp, arr))
+					arr = tmp
+				}
+				typeInfered := &ast.SliceExpr{X: arr}
 				do(cstNewSliceIter, typeInfered)
 			case *types.Slice:
 				do(cstNewSliceIter, n.X)
@@ -64,6 +72,39 @@ func (r *yieldRewriter) rewriteRanges(block *ast.BlockStmt) {
 		}
 		return true
 	})
+}
+
+// whether the array expr can be sliced directly (variable, field, element, dereference)
+func (r *yieldRewriter) isAddressable(expr ast.Expr) bool {
+	switch expr := expr.(type) {
+	case *ast.Ident:
+		return true
+	case *ast.ParenExpr:
+		return r.isAddressable(expr.X)
+	case *ast.StarExpr:
+		return true
+	case *ast.SelectorExpr:
+		// pkg.Var, field of pointer, or field of addressable struct
+		if ty := r.pkg.TypeOf(expr.X); ty != nil {
+			if _, isPtr := ty.Underlying().(*types.Pointer); isPtr {
+				return true
+			}
+		}
+		return r.isAddressable(expr.X)
+	case *ast.IndexExpr:
+		ty := r.pkg.TypeOf(expr.X)
+		if ty == nil {
+			return false
+		}
+		switch ty.Underlying().(type) {
+		case *types.Slice, *types.Pointer:
+			return true // element of slice / pointer to array
+		case *types.Array:
+			return r.isAddressable(expr.X)
+		}
+		return false // map element
+	}
+	return false
 }
 
 func (r *yieldRewriter) rewriteRangeToForIter(
